@@ -7,6 +7,7 @@ import Dos.StreamDriver
 import Dos.MergeDriver
 import Dos.MultiDriver
 import Dos.ConcDriver
+import Dos.BackupDriver
 
 open Dos
 
@@ -15,6 +16,7 @@ structure All where
   stream : StreamDriver.DState := {}
   multi : MultiDriver.DState := {}
   conc : ConcDriver.DState := {}
+  bk : BackupDriver.DState := {}
 
 def stepAll (a : All) (line : String) : All × String :=
   let l := line.trimAscii.toString
@@ -34,6 +36,9 @@ def stepAll (a : All) (line : String) : All × String :=
   else if l.startsWith "conc " then
     let (d, out) := ConcDriver.stepLine a.conc (l.drop 5).toString
     ({ a with conc := d }, out)
+  else if l.startsWith "bk " then
+    let (d, out) := BackupDriver.stepLine a.bk (l.drop 3).toString
+    ({ a with bk := d }, out)
   else if l == "reset" then ({}, "ok")
   else (a, "bad-op unknown-protocol")
 
